@@ -433,3 +433,6 @@ V("c17-range-split-drops-blank", "C17", "rich/syntax.py", "        lines = text.
 V("c17-benign-range-split-allow-blank-var", "C17", "rich/syntax.py", "        lines = text.split(\"\\n\", allow_blank=bool(self.line_range))\n", "        keep_blank = self.line_range is not None\n        lines = text.split(\"\\n\", allow_blank=keep_blank)\n", None)
 V("c10-live-stop-line-before-release", "C10", "rich/live.py", "                # flush text pending in the redirected streams while it can still go above the frame\n                self._disable_redirect_io()\n", "", "R10.10")
 V("c10-progress-stop-line-before-release", "C10", PR, "                # flush text pending in the redirected streams while it can still go above the frame\n                self._disable_redirect_io()\n", "", "R10.10")
+V("c20-config-interpolates", "C20", "rich/theme.py", "configparser.ConfigParser(interpolation=None)", "configparser.ConfigParser()", "R20.7")
+V("c20-config-inline-comments", "C20", "rich/theme.py", "configparser.ConfigParser(interpolation=None)", "configparser.ConfigParser(interpolation=None, inline_comment_prefixes=(\"#\", \";\"))", "R20.7")
+V("c20-benign-raw-config-parser", "C20", "rich/theme.py", "configparser.ConfigParser(interpolation=None)", "configparser.RawConfigParser()", None)
